@@ -337,7 +337,7 @@ end
 mutual
 /-- the logical value the column holds for a typed value under the tracing options `o`: as `lv`, except that an enum
 without data is stored as a STRING column (Dictionary(UInt32, string type)) under `enums_without_data_as_strings`, where
-the logical value of a variant is its NAME.  Additive: `lv` (the Union form) is unchanged; `lvO o = lv` wherever no such
+the logical value of a variant is its NAME.  Additive: `lv` (the Union form) stays beside it; `lvO o = lv` wherever no such
 enum occurs. -/
 def lvO (o : TraceOpts) : Ty → Val → LVal
   | .prim .bool, .bool b => .bool b
